@@ -10,7 +10,7 @@ PROPERTY = 'C03'
 META = {
     'level': 'exploration',
     'technique': 'history + executable array model: every reply and the complete tag state after every request compared with an independent sequential model; requests encoded/decoded by the reference codec',
-    'text': 'Random configurations (all 13 element types, scalars and arrays up to 1200 elements, auto-allocated tags and tags bound to @class/instance/attribute with several tags sharing an '
+    'text': 'Also: ISO-8859-1 near-homonym tag names, a tag bound explicitly inside the automatic-allocation instance followed by automatic tags, and scripted histories over hash-confusable value pairs (-1/-2, 0/2**61-1, 1.0/2.0**61, signed zeros) read back by every service. Random configurations (all 13 element types, scalars and arrays up to 1200 elements, auto-allocated tags and tags bound to @class/instance/attribute with several tags sharing an '
             'instance, two tags aliasing one attribute, and pairs of ISO-8859-1 names such as Maß / MASS that only a too-broad caseless comparison identifies) are given to the real simulator, both through the in-process frame pipeline and through the real main(argv) tag-argument parser '
             'over TCP. Histories of Read/Write Tag [Fragmented] and Get/Set Attribute Single requests, by symbolic name (case varied) and by numeric path, at every kind of start '
             'index and count and with compatible narrower source types, are executed; each reply (status, extended status, type, data) and after each request the whole tag state '
